@@ -37,24 +37,24 @@ type nkey struct {
 }
 
 type nullAnalysis struct {
-	c     *Ctx
-	la    *lockAnalysis
-	rule  string
-	seen  map[nkey]bool
-	nn    map[ssa.Value]string
-	derefs int
-	sites  int
+	c         *Ctx
+	la        *lockAnalysis
+	rule      string
+	seen      map[nkey]bool
+	nn        map[ssa.Value]string
+	derefs    int
+	sites     int
 	pkgPrefix string
-	callers map[*ssa.Function][]ssa.CallInstruction
-	reported map[ssa.Instruction]bool
+	callers   map[*ssa.Function][]ssa.CallInstruction
+	reported  map[ssa.Instruction]bool
 }
 
 // notInputSurface: decode sites that read data galaxy wrote itself (state files), or test helpers
 var notInputSurface = map[string]string{
-	"@/pkg/api/cniutil.consumeNetworkInfo":  "state file written by saveNetworkInfo of this daemon, not an input surface",
-	"@/pkg/api/k8s.ConsumePort":              "port file written by SavePort of this daemon",
-	"@/pkg/ipam/floatingip.CreateTestIPAM":   "test helper",
-	"(*@/pkg/galaxy.Galaxy).setupIPtables":   "port files written by this daemon",
+	"@/pkg/api/cniutil.consumeNetworkInfo":              "state file written by saveNetworkInfo of this daemon, not an input surface",
+	"@/pkg/api/k8s.ConsumePort":                         "port file written by SavePort of this daemon",
+	"@/pkg/ipam/floatingip.CreateTestIPAM":              "test helper",
+	"(*@/pkg/galaxy.Galaxy).setupIPtables":              "port files written by this daemon",
 	"(*@/pkg/ipam/floatingip.FloatingIP).unmarshalAttr": "attr text written by galaxy-ipam into its own CRD",
 }
 
